@@ -47,9 +47,7 @@ Lemma year_bounds days y m d :
 Proof.
   intros E Hd.
   pose proof (days_from_civil_of_days days) as D. rewrite E in D.
-  pose proof (civil_from_days_valid days) as V. rewrite E in V.
-  unfold valid_date in V. repeat (apply andb_true_iff in V; destruct V as [V ?]).
-  pose proof (days_in_month_le y m) as L.
+  pose proof (civil_from_days_ranges days) as V. rewrite E in V. destruct V as [Vm Vd].
   rewrite dfc_closed in D. cbv zeta in D. unfold mp_of_month in D.
   destruct (m <=? 2) eqn:E1; destruct (m >? 2) eqn:E2; try lia;
     revert D; Z.div_mod_to_equations; lia.
@@ -129,10 +127,8 @@ Proof.
   destruct (civil_from_days (t / 86400)) as [[y m] d] eqn:E.
   assert (Hdays : -683003 <= t / 86400 <= 2932896) by (Z.div_mod_to_equations; lia).
   pose proof (year_bounds _ _ _ _ E Hdays) as Hy.
-  pose proof (civil_from_days_valid (t / 86400)) as V. rewrite E in V.
+  pose proof (civil_from_days_ranges (t / 86400)) as V. rewrite E in V. destruct V as [Vm Vd].
   pose proof (days_from_civil_of_days (t / 86400)) as D. rewrite E in D.
-  pose proof (days_in_month_le y m) as L.
-  unfold valid_date in V. repeat (apply andb_true_iff in V; destruct V as [V ?]).
   destruct (time_of_day t) as [T1 [T2 [T3 T4]]].
   repeat split; try lia.
   unfold timegm, date_ok.
